@@ -158,4 +158,141 @@ def exRat : Except Err Frac → Option ℚ
   | .ok f => some f.toRat
   | .error _ => none
 
+/-! ## every age `calc_node_ages` assigns is well-formed, under any configuration -/
+
+theorem childSums_wf : ∀ (l : List AT) (vs : List Frac), childSums l = .ok vs → ∀ v ∈ vs, v.WF
+  | [], vs, h, v, hv => by
+    simp only [childSums, Except.ok.injEq] at h
+    subst h; simp at hv
+  | c :: cs, vs, h, v, hv => by
+    simp only [childSums] at h
+    cases h1 : childSum c with
+    | error e => rw [h1] at h; cases h
+    | ok x =>
+      rw [h1] at h
+      simp only at h
+      cases h2 : childSums cs with
+      | error e => rw [h2] at h; cases h
+      | ok xs =>
+        rw [h2] at h
+        simp only [Except.ok.injEq] at h
+        subst h
+        rcases List.mem_cons.mp hv with rfl | hv'
+        · unfold childSum at h1
+          cases hl : c.len with
+          | none => rw [hl] at h1; cases h1
+          | some l =>
+            rw [hl] at h1
+            simp only [Except.ok.injEq] at h1
+            subst h1
+            exact Frac.add_wf _ _
+        · exact childSums_wf cs xs h2 v hv'
+
+theorem ageToSet_wf (cfg : Cfg) (a : AT) (as : List AT) (age : Frac) (h : ageToSet cfg a as = .ok age) : age.WF := by
+  unfold ageToSet at h
+  by_cases hx : cfg.forceMax = true
+  · rw [if_pos hx] at h
+    cases hc : childSums (a :: as) with
+    | error e => rw [hc] at h; cases h
+    | ok vs =>
+      rw [hc] at h
+      cases vs with
+      | nil => simp only [Except.ok.injEq] at h; subst h; exact Frac.zero_wf
+      | cons v vs =>
+        simp only [Except.ok.injEq] at h
+        subst h
+        exact childSums_wf _ _ hc _ (maxList_mem vs v)
+  · rw [if_neg hx] at h
+    by_cases hn : cfg.forceMin = true
+    · rw [if_pos hn] at h
+      cases hc : childSums (a :: as) with
+      | error e => rw [hc] at h; cases h
+      | ok vs =>
+        rw [hc] at h
+        cases vs with
+        | nil => simp only [Except.ok.injEq] at h; subst h; exact Frac.zero_wf
+        | cons v vs =>
+          simp only [Except.ok.injEq] at h
+          subst h
+          exact childSums_wf _ _ hc _ (minList_mem vs v)
+    · rw [if_neg hn] at h
+      simp only [Except.ok.injEq] at h
+      subst h
+      exact Frac.add_wf _ _
+
+mutual
+theorem calcAges_awf (cfg : Cfg) : ∀ (t : T) (a : AT), calcAges cfg t = .ok a → AWF a
+  | .node i x l s cs, a, h => by
+    simp only [calcAges] at h
+    cases hc : calcAgesL cfg cs with
+    | error e => rw [hc] at h; cases h
+    | ok as =>
+      rw [hc] at h
+      have ih := calcAgesL_awf cfg cs as hc
+      cases as with
+      | nil =>
+        simp only [Except.ok.injEq] at h
+        subst h
+        exact ⟨Frac.zero_wf, trivial⟩
+      | cons b bs =>
+        simp only at h
+        cases ha : ageToSet cfg b bs with
+        | error e => rw [ha] at h; cases h
+        | ok age =>
+          rw [ha] at h
+          simp only at h
+          have hw := ageToSet_wf cfg b bs age ha
+          cases hk : cfg.checking with
+          | none =>
+            rw [hk] at h
+            simp only [Except.ok.injEq] at h
+            subst h
+            exact ⟨hw, ih⟩
+          | some p =>
+            rw [hk] at h
+            simp only at h
+            split at h
+            · simp only [Except.ok.injEq] at h
+              subst h
+              exact ⟨hw, ih⟩
+            · cases h
+theorem calcAgesL_awf (cfg : Cfg) : ∀ (cs : List T) (as : List AT), calcAgesL cfg cs = .ok as → AWFL as
+  | [], as, h => by
+    simp only [calcAgesL, Except.ok.injEq] at h
+    subst h; trivial
+  | c :: cs, as, h => by
+    simp only [calcAgesL] at h
+    cases h1 : calcAges cfg c with
+    | error e => rw [h1] at h; cases h
+    | ok a =>
+      rw [h1] at h
+      simp only at h
+      cases h2 : calcAgesL cfg cs with
+      | error e => rw [h2] at h; cases h
+      | ok as' =>
+        rw [h2] at h
+        simp only [Except.ok.injEq] at h
+        subst h
+        exact ⟨calcAges_awf cfg c a h1, calcAgesL_awf cfg cs as' h2⟩
+end
+
+mutual
+theorem returned_wf (io : Bool) : ∀ a : AT, AWF a → ∀ y ∈ a.returned io, y.WF
+  | .node _ a _ [], hw, y, hy => by
+    cases io <;> simp [AT.returned] at hy
+    subst hy; exact hw.1
+  | .node _ a _ (c :: cs), hw, y, hy => by
+    simp only [AT.returned, List.mem_append, List.mem_singleton] at hy
+    rcases hy with hy | rfl
+    · exact returnedL_wf io (c :: cs) hw.2 y hy
+    · exact hw.1
+theorem returnedL_wf (io : Bool) : ∀ cs : List AT, AWFL cs → ∀ y ∈ AT.returnedL io cs, y.WF
+  | [], _, y, hy => by simp [AT.returnedL] at hy
+  | c :: cs, hw, y, hy => by
+    simp only [AT.returnedL, List.mem_append] at hy
+    rcases hy with hy | hy
+    · exact returned_wf io c hw.1 y hy
+    · exact returnedL_wf io cs hw.2 y hy
+end
+
 end DendroModel.C17.Aux
